@@ -536,6 +536,43 @@ fn large_batch_family(run: &Run, thorough: bool) {
                 run.outcome("large-batch:same");
             }
         });
+        // one conflict inside the large batch: a rival of chain member k (it spends the same coin) placed at position j.  How a large
+        // batch is cut into pieces depends on its length and on the pool; whatever the cut, the batch consumes a coin twice
+        if len <= 1100 {
+            let sizes = [1usize, 2, 4, 16];
+            let lpools: Vec<rayon::ThreadPool> = sizes.iter().map(|n| rayon::ThreadPoolBuilder::new().num_threads(*n).build().unwrap()).collect();
+            for k in [3usize, len / 2, len - 2] {
+                let rival = tx_t(TxKind::Normal, chain[k].inputs.clone(), vec![out_t(1_000_000_000, Denom::Mel)], 0, vec![0xba, 0xd0]);
+                for j in [0usize, k + 1, len / 2 + 22, len / 4, len] {
+                    let mut txs = chain.clone();
+                    txs.insert(j.min(len), rival.clone());
+                    let verdicts: Vec<Outcome> = lpools
+                        .iter()
+                        .map(|pl| {
+                            run.transition();
+                            let o = pl.install(|| apply_as_batch(&u, &txs));
+                            run.validated();
+                            o
+                        })
+                        .collect();
+                    for (o, n) in verdicts.iter().zip(sizes.iter()) {
+                        if o != &verdicts[0] {
+                            run.violation(
+                                "C03",
+                                format!("large-batch/pool-size-dependent/conflict/{}", diff_fields(&verdicts[0], o)),
+                                format!("a payment chain of {} transactions with a rival spender of member {}'s coin at position {}: the verdict on a pool of {} workers differs from the 1-worker verdict", len, k, j, n),
+                                json!({"chain_length": len, "rival_of": k, "rival_position": j, "workers": n}),
+                            );
+                        }
+                    }
+                    run.outcome(match &verdicts[0] {
+                        Outcome::Rejected => "large-batch-with-conflict:rejected",
+                        Outcome::Accepted { .. } => "large-batch-with-conflict:accepted(reported under C02)",
+                        Outcome::Panicked(_) => "large-batch-with-conflict:panicked(reported under C09)",
+                    });
+                }
+            }
+        }
         // the block holding the chain is accepted whatever order its HashSet iterates in
         if let Outcome::Accepted { none, .. } = &reference {
             for round in 0..3 {
